@@ -400,7 +400,8 @@ SPEC = PropSpec(
                  "end-to-end decision table - the whole decode path (framer, container walk, decoders, readers) is "
                  "interpreted on model definitions with fixed and length-dependent layouts over packets shorter, "
                  "equal and longer than what the definition consumes, with computed lengths negative / zero / beyond "
-                 "the end: clean delivery iff exact consumption, otherwise warning (+withheld) or exception."),
+                 "the end: clean delivery iff exact consumption, otherwise warning (+withheld) or exception."
+                 ' R14.fresh: consumption is counted from bit 0 of each parse (two packets built from the same raw bytes do not share a cursor).'),
     rule_doc="R14.1 per (advance site, guard kind); R14.2 per writer; R14.3 per option; R14.4 per layout over all packets",
     assumptions=["packet_generator is the only delivery path of parsed packets"],
     controls=controls,
